@@ -26,7 +26,7 @@ USERS = [(0, (0,)), (1000, (100,)), (2000, (200,)), (1000, (100, 200)), (3000, (
 OWNERS = [(0, 0), (1000, 100), (2000, 200), (0, 100), (2000, 100)]
 STAT_ERRNOS = [errno.EACCES, errno.ENOTDIR, errno.ELOOP, errno.ENAMETOOLONG]
 
-FAULT_NO_FILE, FAULT_NOT_EXECUTABLE, FAULT_BAD_NAME, FAULT_SUCCESS = 20, 21, 10, 80      # checked against supervisor.xmlrpc.Faults in run()
+FAULT_NO_FILE, FAULT_NOT_EXECUTABLE, FAULT_BAD_NAME, FAULT_SUCCESS, FAULT_ALREADY_STARTED = 20, 21, 10, 80, 60      # checked against supervisor.xmlrpc.Faults in run()
 RUNNING_STATES = ('STARTING', 'RUNNING', 'BACKOFF')
 
 
@@ -315,6 +315,8 @@ def monitor(ctx, case, op, facts, inp):
     if v == 'ok':
         if ans in (FAULT_NO_FILE, FAULT_NOT_EXECUTABLE, FAULT_BAD_NAME):
             bad('start-file-fault-for-executable-command', what)
+    elif ans == FAULT_ALREADY_STARTED and facts['pre'] in RUNNING_STATES:
+        pass         # the property names both answers for such a request without ranking them (the code tests the file first; the model pins that)
     elif v == 'missing':
         if ans != FAULT_NO_FILE:
             bad('start-missing-file-not-reported', what + ' instead of NO_FILE')
@@ -593,7 +595,8 @@ def population(ctx):
 
 def run(ctx):
     from supervisor.xmlrpc import Faults
-    assert (Faults.NO_FILE, Faults.NOT_EXECUTABLE, Faults.BAD_NAME, Faults.SUCCESS) == (FAULT_NO_FILE, FAULT_NOT_EXECUTABLE, FAULT_BAD_NAME, FAULT_SUCCESS)
+    assert (Faults.NO_FILE, Faults.NOT_EXECUTABLE, Faults.BAD_NAME, Faults.SUCCESS, Faults.ALREADY_STARTED) == (
+        FAULT_NO_FILE, FAULT_NOT_EXECUTABLE, FAULT_BAD_NAME, FAULT_SUCCESS, FAULT_ALREADY_STARTED)
     cases, impls = check_cases(ctx, ctx.tier == 'thorough') if not ctx.searching else ([], [])
     for origin, case in population(ctx):
         cl, ops, lines = run_case(ctx, case, origin)
